@@ -71,6 +71,7 @@ class Run(object):
         self.checker_cmd = checker_cmd
         self.t0 = time.time()
         self.obs = []
+        self.bulks = []
         self.functions = {}     # qualified name -> {sha, file, lines}
         self.assumptions = []
         self.trusted_base = []
@@ -89,6 +90,10 @@ class Run(object):
         return ob
     def ob(self, oid, status, mode, backend, secs=0.0, **kw):
         return self.add(Ob(oid, status, mode, backend, secs, **kw))
+    def bulk(self, label, n, mode, backend, secs=0.0, status=DISCHARGED):
+        """n obligations with the same status, recorded as a count (shape-bounded sweeps)"""
+        if n > 0:
+            self.bulks.append((label, n, mode, backend, secs, status))
     def function(self, qname, src, file=None, lineno=None):
         self.functions[qname] = {'sha': sha(src), 'file': file, 'line': lineno}
     def assume(self, text):
@@ -172,10 +177,22 @@ class Run(object):
             d['secs'] += o.secs
         for d in by_mode.values():
             d['secs'] = round(d['secs'], 3)
-        proof_obs = [o for o in self.obs if o.mode in ('SMT-A', 'SMT-B', 'COMP', 'SMT-shape', 'STATIC')]
+        PROOF_MODES = ('SMT-A', 'SMT-B', 'COMP', 'SMT-shape', 'STATIC')
+        proof_obs = [o for o in self.obs if o.mode in PROOF_MODES]
         n_proof = len([o for o in proof_obs if o.status != 'known-finding'])
         n_disch = len([o for o in proof_obs if o.status == DISCHARGED])
         n_bnd = len([o for o in self.obs if o.status in (BOUNDED_OK, DOWNGRADED)])
+        for (label, n, mode, backend, secs, status) in self.bulks:
+            counts[status] = counts.get(status, 0) + n
+            d = by_mode.setdefault('%s/%s' % (mode, backend), {'n': 0, 'secs': 0.0})
+            d['n'] += n
+            d['secs'] = round(d['secs'] + secs, 3)
+            if mode in PROOF_MODES:
+                n_proof += n
+                if status == DISCHARGED:
+                    n_disch += n
+            if status in (BOUNDED_OK, DOWNGRADED):
+                n_bnd += n
         cov = {
             'obligations': n_proof,
             'discharged': n_disch,
@@ -186,8 +203,8 @@ class Run(object):
             'status_counts': counts,
             'by_mode_backend': by_mode,
             'functions_under_contract': self.functions,
-            'evaluations': max(self.evaluations, len(self.obs)),
-            'distinct_nontrivial': max(self.distinct, len(set(o.oid for o in self.obs))),
+            'evaluations': max(self.evaluations, len(self.obs) + sum(b[1] for b in self.bulks)),
+            'distinct_nontrivial': max(self.distinct, len(set(o.oid for o in self.obs)) + sum(b[1] for b in self.bulks)),
             'rule': self.rule,
             'samples': self.samples or [o.oid for o in self.obs[:8]],
             'explanation': self.explanation,
@@ -205,14 +222,14 @@ class Run(object):
         with open(os.path.join(VERIF, 'evidence', self.pid + '.json'), 'w') as f:
             json.dump(ev, f, indent=1, default=str)
         print('%s tier=%s: %d obligations (%s) in %.1fs' % (
-            self.pid, self.tier, len(self.obs), ', '.join('%s=%d' % kv for kv in sorted(counts.items())), time.time() - self.t0))
+            self.pid, self.tier, len(self.obs) + sum(b[1] for b in self.bulks), ', '.join('%s=%d' % kv for kv in sorted(counts.items())), time.time() - self.t0))
         if engine_err:
             for o in engine_err[:10]:
                 print('CHECKER-DEFECT %s: %s' % (o.oid, (o.detail or '')[:300]))
             return 3
         if n_viol:
             return 1
-        if len(self.obs) == 0:
+        if len(self.obs) + sum(b[1] for b in self.bulks) == 0:
             print('CHECKER-DEFECT: zero obligations generated for %s' % self.pid)
             return 3
         if undecided:
